@@ -470,3 +470,51 @@ def self_attrs(e: ast.AST) -> Set[str]:
 
 def load_names(e: ast.AST) -> Set[str]:
     return {x.id for x in ast.walk(e) if isinstance(x, ast.Name) and isinstance(x.ctx, ast.Load)}
+
+
+# --------------------------------------------------------------------------
+# Flow-sensitive reaching definition for straight-line code
+# --------------------------------------------------------------------------
+def reaching_def(name: str, at: ast.AST, fnode: ast.AST) -> Optional[ast.AST]:
+    """Value expression of the unique definition of ``name`` that reaches
+    ``at``: the latest plain assignment that precedes it in its own block or
+    in an enclosing block.  Returns None when the definition is conditional,
+    comes from a loop target / augmented assignment, or does not exist."""
+    stmt = at
+    while not isinstance(stmt, ast.stmt):
+        stmt = stmt.parent
+    while stmt is not None and stmt is not fnode:
+        p, fld, lst = block_of(stmt)
+        idx = next((i for i, s in enumerate(lst) if s is stmt), 0)
+        for s in reversed(lst[:idx]):
+            if isinstance(s, ast.Assign) and len(s.targets) == 1 and \
+                    isinstance(s.targets[0], ast.Name) and s.targets[0].id == name:
+                return s.value
+            if isinstance(s, ast.AnnAssign) and isinstance(s.target, ast.Name) and \
+                    s.target.id == name and s.value is not None:
+                return s.value
+            # any other (conditional / nested / augmented) definition hides the answer
+            for x in ast.walk(s):
+                if isinstance(x, ast.Name) and isinstance(x.ctx, ast.Store) and x.id == name:
+                    return None
+        if isinstance(p, (ast.For, ast.comprehension)):
+            if any(isinstance(x, ast.Name) and x.id == name for x in ast.walk(p.target)):
+                return None
+        stmt = p if isinstance(p, ast.stmt) else None
+    return None
+
+
+def resolve_flow(e: ast.AST, at: ast.AST, fnode: ast.AST, depth: int = 8) -> ast.AST:
+    """Replace names in ``e`` by their reaching definitions at ``at`` (flow-sensitive)."""
+    class R(ast.NodeTransformer):
+        def visit_Name(self, node):
+            if isinstance(node.ctx, ast.Load) and depth > 0:
+                v = reaching_def(node.id, at, fnode)
+                if v is not None:
+                    return resolve_flow(v, v, fnode, depth - 1)
+            return node
+    return R().visit(clone(e))
+
+
+def flow_text(e: ast.AST, at: ast.AST, fnode: ast.AST) -> str:
+    return norm(resolve_flow(e, at, fnode))
